@@ -11,8 +11,7 @@ Arguments N.leb : simpl never.
 (* the setting contains() works with: the call argument if given, else the object's setting, else the automatic default *)
 Definition gate_setting (sp : specifier) (ov arg : option bool) : bool :=
   match arg with Some b => b | None => effective_pre ov sp end.
-(* `item in spec` *)
-Definition in_op (sp : specifier) (ov : option bool) (item : str) : outcome := contains sp ov None item.
+(* `item in spec` is SpecContains.in_op sp ov item = contains sp ov None item (the definition the observation layer runs) *)
 
 Lemma contains_spec_ans s sp item c : Specifier s = Some sp -> Version item = Some c ->
   exists b, compare_op (sp_op sp) c (sp_text sp) = Some b /\ contains_spec sp item = Some (Ans b).
